@@ -380,6 +380,32 @@ class Ctx:
 # ---------------------------------------------------------------------------
 # helpers
 
+class range_check:
+    """marks decisions that only test whether a value fits its field width (the discovery pass
+    of the mp4 harnesses does not treat those as structural)"""
+
+    def __enter__(self):
+        c = _CTX
+        if c is not None:
+            c.env['range_check'] = c.env.get('range_check', 0) + 1
+        return self
+
+    def __exit__(self, *a):
+        c = _CTX
+        if c is not None:
+            c.env['range_check'] = c.env.get('range_check', 1) - 1
+        return False
+
+
+def note_use(x):
+    """tell an analysis hook (if any) that the value x is written to an output encoding"""
+    c = _CTX
+    if c is not None:
+        h = c.env.get('use_hook')
+        if h is not None and isinstance(x, (SymInt, SymBool)):
+            h(x)
+
+
 def is_sym(x):
     return isinstance(x, (SymInt, SymBool))
 
